@@ -39,8 +39,18 @@ def _mentions_time(e: ast.AST | None, f: ast.FunctionDef) -> bool:
     return False
 
 
+def follow_delegation(P: Program, f, depth: int = 0):
+    """If `f` only hands its arguments on (`return self.x.m(a, b)`), the function that does the work."""
+    body = [s_ for s_ in f.node.body if not (isinstance(s_, ast.Expr) and isinstance(s_.value, ast.Constant))]
+    if depth < 3 and len(body) == 1 and isinstance(body[0], ast.Return) and isinstance(body[0].value, ast.Call):
+        tgt = P.resolve_call(body[0].value, P.local_env(f), f, count=False)
+        if tgt and tgt[0] == "func" and tgt[1][0] is not f:
+            return follow_delegation(P, tgt[1][0], depth + 1)
+    return f
+
+
 def nearest_neighbour(P: Program, R: Report, rule: str) -> None:
-    gtn = P.func_named("get_track_neighbors", "SolutionTracks")
+    gtn = follow_delegation(P, P.func_named("get_track_neighbors", "SolutionTracks"))
     fn = gtn.node
     # the candidate list: locals (transitively) derived from the annotator's per-track map
     cands: set[str] = set()
